@@ -210,3 +210,27 @@ M("C18", "eigenvalues excluded from sorting", PP, 'if "mode" in self.data[key].d
 B("C18", "std directly", PP, "        var_Z = Z.var(sample_name)\n        norms = (var_Z) ** (0.5)", "        norms = Z.std(sample_name)\n        var_Z = norms**2")
 B("C18", "np.abs modulus", PP, "tau = -1 / np.log(abs(lbda))", "tau = -1 / np.log(np.abs(lbda))")
 B("C18", "feedback hoisted", PP, "        A = X[1:].conj().T @ X[:-1] @ np.linalg.inv(X[:-1].conj().T @ X[:-1])", "        A = X[1:].conj().T @ X[:-1] @ np.linalg.inv(X[:-1].conj().T @ X[:-1])\n        n_pc = A.shape[0]")
+
+# ---------------------------------------------------------------- C03
+SC = "xeofs/preprocessing/scaler.py"
+BS = "xeofs/single/base_model_single_set.py"
+BC = "xeofs/cross/base_model_cross_set.py"
+M("C03", "mean added before std undone", SC, '        if params["with_std"]:\n            X = X * self.std_\n        if params["with_center"]:\n            X = X + self.mean_\n', '        if params["with_center"]:\n            X = X + self.mean_\n        if params["with_std"]:\n            X = X * self.std_\n', "MIRROR.affine.order")
+M("C03", "mean not restored", SC, '        if params["with_center"]:\n            X = X + self.mean_\n', "", "MIRROR.affine.pair")
+M("C03", "weights multiplied in inverse", SC, "        X = X / self.weights_\n", "        X = X * self.weights_\n", "MIRROR.affine.pair")
+M("C03", "coslat undone under std flag", SC, '        if params["with_coslat"]:\n            X = X / self.coslat_weights_', '        if params["with_std"]:\n            X = X / self.coslat_weights_', "MIRROR.affine.pair")
+M("C03", "center after scaling in transform", SC, '        if params["with_center"]:\n            X = X - self.mean_\n        if params["with_std"]:\n            X = X / self.std_\n', '        if params["with_std"]:\n            X = X / self.std_\n        if params["with_center"]:\n            X = X - self.mean_\n', "MIRROR.affine.order")
+M("C03", "weights applied twice", SC, "        X = X * self.weights_\n        return X", "        X = X * self.weights_\n        X = X * self.weights_\n        return X", "MIRROR.affine.once")
+M("C03", "cross inverse skips pca1", BC, "            X = self.whitener1.inverse_transform_data(X)\n            X = self.pca1.inverse_transform_data(X)\n            Xrec", "            X = self.whitener1.inverse_transform_data(X)\n            Xrec", "MIRROR.stages")
+M("C03", "whitener2 on the X chain", BC, "            X = self.whitener1.transform(X)\n        if Y is not None:", "            X = self.whitener2.transform(X)\n        if Y is not None:", "MIRROR.stages")
+M("C03", "cross components un-pca before un-whiten", BC, "        Px = self.whitener1.inverse_transform_components(Px)\n        Py = self.whitener2.inverse_transform_components(Py)\n\n        Px = self.pca1.inverse_transform_components(Px)\n        Py = self.pca2.inverse_transform_components(Py)\n\n        Px: DataObject",
+  "        Px = self.pca1.inverse_transform_components(Px)\n        Py = self.pca2.inverse_transform_components(Py)\n\n        Px = self.whitener1.inverse_transform_components(Px)\n        Py = self.whitener2.inverse_transform_components(Py)\n\n        Px: DataObject", "MIRROR.stages")
+M("C03", "single inverse returns without preprocessor", BS, "        return self.preprocessor.inverse_transform_data(data_reconstructed)", "        return data_reconstructed", "MIRROR.stages", accept_error=True)
+M("C03", "scores multiplied when normalized", BS, "            scores = scores / self.data[\"norms\"]\n            scores.name = name", "            scores = scores * self.data[\"norms\"]\n            scores.name = name", "MIRROR.norms")
+M("C03", "inverse divides by norms", BS, "            scores = scores * norms\n", "            scores = scores / norms\n", "MIRROR.norms")
+M("C03", "components scaled when normalized", BS, "        if not normalized:\n            name = components.name", "        if normalized:\n            name = components.name", "MIRROR.norms")
+M("C03", "cross get_scores wrong switch", "xeofs/cross/cpcca.py", "        if normalized:\n            scores1 = scores1 / norm1\n            scores2 = scores2 / norm2\n\n        return scores1, scores2", "        if not normalized:\n            scores1 = scores1 / norm1\n            scores2 = scores2 / norm2\n\n        return scores1, scores2", "MIRROR.norms")
+M("C03", "whitener rescales scores", "xeofs/preprocessing/whitener.py", "original space.\"\"\"\n\n        return X\n\n    def inverse_transform_scores_unseen", "original space.\"\"\"\n\n        return X * self.n_samples\n\n    def inverse_transform_scores_unseen", "MIRROR.scores_identity")
+B("C03", "commuting factors reordered in transform", SC, '        if params["with_coslat"]:\n            X = X * self.coslat_weights_\n\n        X = X * self.weights_\n        return X', '        X = X * self.weights_\n        if params["with_coslat"]:\n            X = X * self.coslat_weights_\n\n        return X')
+B("C03", "rename data2D", BS, "        data2D = self.preprocessor.transform(data)\n        data2D = self._transform_algorithm(data2D)", "        stacked = self.preprocessor.transform(data)\n        data2D = self._transform_algorithm(stacked)")
+B("C03", "inverse hoists params lookup", SC, '        X = X / self.weights_\n        if params["with_coslat"]:', '        w = self.weights_\n        X = X / w\n        if params["with_coslat"]:')
